@@ -63,7 +63,27 @@ FOCUS_W4 = {
  'C16': "the gamma 2.2 mapper and the in-place mapping paths",
  'C17': "f32 <-> i32 and u8 -> f32 / u16 -> f32 conversions",
 }
-FOCUS = FOCUS_W4 if tag.startswith('w4') else (FOCUS_W3 if tag.startswith('w3') else FOCUS_W2)
+FOCUS_W5 = {
+ 'C01': "the centre / scale arithmetic of precompute_coefficients when a crop box with a fractional origin is combined with a two-pass resize (in0/in1, bound shifting into the temporary image in src/resizer.rs), or the Hamming / Gaussian / Lanczos3 kernels; prefer a defect made of two cooperating edits that each look fine alone",
+ 'C02': "the SSE4.1 / AVX2 kernels of the floating-point and i32 pixel types (src/convolution/f32x1..f32x4, i32x1, vertical_f32) and the f32x2 alpha kernels",
+ 'C03': "src/array_chunks.rs, src/utils.rs, and what Resizer / MulDiv / PixelComponentMapper / change_type_of_pixel_components do with zero-sized and one-pixel images or views; prefer something that needs a sequence of calls",
+ 'C04': "TypedImageRef::new / TypedImage::from_buffer / from_pixels_slice (length and alignment arithmetic) and TypedCroppedImage::new versus ::from_ref",
+ 'C05': "in-place alpha operations and change_type_of_pixel_components / colour mapping applied to mutable cropped views, and the rayon-free row loops of src/alpha/*/native.rs",
+ 'C06': "the 8-bit multiply kernels (src/alpha/u8x4, u8x2: native and SIMD, row tails) and the typed versus dynamic entry points in src/mul_div.rs",
+ 'C07': "alpha handling for U16x2 / U16x4 / F32x2 / F32x4, the MulDiv::is_supported gate and how ResizeOptions.use_alpha is carried through Resizer::resize -> resize_typed -> resample_*",
+ 'C08': "how thread bands interact with a crop box / source offset, and the rayon paths of divide_alpha_inplace / multiply_alpha",
+ 'C09': "sequences of three or more calls mixing pixel types of different alignment (u8, then f32x3, then u16x3 ...), reset_internal_buffers and Resizer::clone, and the alpha_buffer / super_sampling_buffer (not the convolution buffer)",
+ 'C10': "the SIMD kernels of the 16-bit pixel types (u16x1 .. u16x4, vertical_u16): initial rounding value, coefficient remainders, final shift / pack",
+ 'C11': "multi-byte pixel types (U16x3, F32x3, F32x4), 1-pixel destinations, very large scale factors, and the float accumulation of the row position",
+ 'C12': "integer-aligned crop boxes given with a non-zero origin through different containers, and the decision `is the crop box integer-aligned` itself",
+ 'C13': "the typed versus dynamic entry points of MulDiv and PixelComponentMapper / change_type_of_pixel_components, and the u8-buffer -> typed-pixel reinterpretation (align_to) in src/images/*.rs and src/utils.rs",
+ 'C14': "the default ImageView / ImageViewMut split implementations in src/image_view.rs and src/images/unsafe_image.rs",
+ 'C15': "how Resizer applies ResizeOptions::fit_into_destination (centering, interplay with an explicit crop, with use_alpha) - src/resizer.rs option plumbing - rather than fit_src_into_dst_size's arithmetic alone",
+ 'C16': "map_with_gaps for four-component types and rows that are not a whole number of SIMD/unrolled groups, and forward versus backward direction of the mapper",
+ 'C17': "the type-pair dispatch in src/change_components_type.rs (which conversion is chosen for which pair of pixel types) and multi-component pixels",
+ 'C18': "the SIMD 16-bit horizontal and vertical kernels: treatment of u16 values >= 32768 and of coefficients before the multiply",
+}
+FOCUS = FOCUS_W5 if tag.startswith('w5') else FOCUS_W4 if tag.startswith('w4') else (FOCUS_W3 if tag.startswith('w3') else FOCUS_W2)
 os.makedirs('/tmp/wt', exist_ok=True)
 tmpl = open(os.path.join(os.path.dirname(os.path.abspath(__file__)), 'prompt_template.txt')).read()
 for line in open('/verif/properties.jsonl'):
